@@ -1,0 +1,563 @@
+//go:build verif
+
+// Contracts for package thrift (dgv, see /verif/DESIGN.md §4). Comment-only file.
+// Spec functions are transcribed from the Apache Thrift binary protocol specification.
+package thrift
+
+//@ global nonnil errDismatchPrimitive errInvalidDataSize errInvalidVersion errExceedDepthLimit errInvalidDataType errUnknonwField errUnsupportedType errNotImplemented io.EOF
+//@ global frozen typeSize
+
+// Representation invariant of the protocol cursor.
+//@ typeinv *BinaryProtocol as p = p != nil && 0 <= p.Read && p.Read <= len(p.Buf)
+//@ typeinv BinaryProtocol as p = 0 <= p.Read && p.Read <= len(p.Buf)
+
+// ---- big-endian scalars -----------------------------------------------------------------------
+//@ pure be16(b []byte, o int) uint16 = uint16(b[o])<<8 | uint16(b[o+1])
+//@ pure be32(b []byte, o int) uint32 = uint32(b[o])<<24 | uint32(b[o+1])<<16 | uint32(b[o+2])<<8 | uint32(b[o+3])
+//@ pure be64(b []byte, o int) uint64 = uint64(b[o])<<56 | uint64(b[o+1])<<48 | uint64(b[o+2])<<40 | uint64(b[o+3])<<32 | \
+//@      uint64(b[o+4])<<24 | uint64(b[o+5])<<16 | uint64(b[o+6])<<8 | uint64(b[o+7])
+// k-th byte (0 = most significant) of the big-endian encoding of an n-byte integer held in a uint64
+//@ pure bebyte(v uint64, n int, k int) byte = byte(v >> uint64(8*(n-1-k)))
+
+//@ lemma be_roundtrip(b []byte, o int, v uint64)
+//@   props C19
+//@   requires 0 <= o && o <= len(b) && o + 8 <= len(b)
+//@   ensures r16: (forall k :: 0 <= k && k < 2 ==> b[o+k] == bebyte(v & 0xffff, 2, k)) ==> be16(b, o) == uint16(v)
+//@   ensures r32: (forall k :: 0 <= k && k < 4 ==> b[o+k] == bebyte(v & 0xffffffff, 4, k)) ==> be32(b, o) == uint32(v)
+//@   ensures r64: (forall k :: 0 <= k && k < 8 ==> b[o+k] == bebyte(v, 8, k)) ==> be64(b, o) == v
+
+// "p.Buf is the old p.Buf with n bytes appended, the k-th of which is E"; the read cursor is untouched;
+// Go append/growslice semantics: reuse of the backing array exactly when it has room.
+//@ template bp_appends(n, E)
+//@   ensures ok: r0 == nil
+//@   ensures len: len(p.Buf) == old(len(p.Buf)) + n
+//@   ensures prefix: forall i :: 0 <= i && i < old(len(p.Buf)) ==> p.Buf[i] == old(p.Buf[i])
+//@   ensures enc: forall k :: 0 <= k && k < n ==> p.Buf[old(len(p.Buf))+k] == E
+//@   ensures read: p.Read == old(p.Read)
+//@   ensures inplace: old(len(p.Buf)) + n <= old(cap(p.Buf)) ==> same(p.Buf, old(p.Buf)) && cap(p.Buf) == old(cap(p.Buf))
+//@   ensures grown: old(len(p.Buf)) + n > old(cap(p.Buf)) ==> fresh(p.Buf)
+//@   modifies p.Buf, p.Buf[len(p.Buf):len(p.Buf)+n] if len(p.Buf) + n <= cap(p.Buf)
+//@   split len(p.Buf) + n <= cap(p.Buf)
+//@ end
+
+//@ spec (*BinaryProtocol).malloc
+//@   props C19 C06
+//@   notypeinv                 // ModifyI32 calls the writers while p.Buf is truncated below p.Read
+//@   requires nonnil: p != nil
+//@   requires size: size > 0 && size <= 8
+//@   ensures ok: r1 == nil
+//@   ensures len: len(p.Buf) == old(len(p.Buf)) + size
+//@   ensures prefix: forall i :: 0 <= i && i < old(len(p.Buf)) ==> p.Buf[i] == old(p.Buf[i])
+//@   ensures window: len(r0) == size && sameregion(r0, p.Buf) && offset(r0) == offset(p.Buf) + old(len(p.Buf))
+//@   ensures read: p.Read == old(p.Read)
+//@   ensures inplace: old(len(p.Buf)) + size <= old(cap(p.Buf)) ==> same(p.Buf, old(p.Buf)) && cap(p.Buf) == old(cap(p.Buf))
+//@   ensures grown: old(len(p.Buf)) + size > old(cap(p.Buf)) ==> fresh(p.Buf)
+//@   modifies p.Buf
+//@   split len(p.Buf) + size <= cap(p.Buf)
+
+//@ spec (*BinaryProtocol).WriteByte
+//@   props C19
+//@   use bp_appends(1, value)
+
+//@ spec (*BinaryProtocol).WriteBool
+//@   props C19
+//@   use bp_appends(1, ite(value, byte(1), byte(0)))
+
+//@ spec (*BinaryProtocol).WriteI16
+//@   props C19
+//@   use bp_appends(2, bebyte(uint64(uint16(value)), 2, k))
+
+//@ spec (*BinaryProtocol).WriteI32
+//@   props C19
+//@   notypeinv
+//@   requires nonnil: p != nil
+//@   use bp_appends(4, bebyte(uint64(uint32(value)), 4, k))
+
+//@ spec (*BinaryProtocol).WriteI64
+//@   props C19
+//@   use bp_appends(8, bebyte(uint64(value), 8, k))
+
+//@ spec (*BinaryProtocol).WriteDouble
+//@   props C19
+//@   use bp_appends(8, bebyte(bits(value), 8, k))
+
+// ---- reading ------------------------------------------------------------------------------------
+//@ spec (*BinaryProtocol).next
+//@   props C19 C06 C01
+//@   requires size: size > 0 && size <= 8
+//@   ensures ok: old(p.Read) + size <= len(p.Buf) ==> r1 == nil && p.Read == old(p.Read) + size && len(r0) == size && \
+//@       sameregion(r0, p.Buf) && offset(r0) == offset(p.Buf) + old(p.Read)
+//@   ensures eof: old(p.Read) + size > len(p.Buf) ==> r1 != nil && p.Read == old(p.Read)
+//@   modifies p.Read
+
+//@ spec (*BinaryProtocol).ReadByte
+//@   props C19 C06 C01
+//@   ensures ok: old(p.Read) + 1 <= len(p.Buf) ==> err == nil && p.Read == old(p.Read) + 1 && value == p.Buf[old(p.Read)]
+//@   ensures eof: old(p.Read) + 1 > len(p.Buf) ==> err != nil && p.Read == old(p.Read)
+//@   modifies p.Read
+
+//@ spec (*BinaryProtocol).ReadBool
+//@   props C19 C06
+//@   ensures ok: old(p.Read) + 1 <= len(p.Buf) ==> r1 == nil && p.Read == old(p.Read) + 1 && r0 == (p.Buf[old(p.Read)] == 1)
+//@   ensures eof: old(p.Read) + 1 > len(p.Buf) ==> r1 != nil && p.Read == old(p.Read)
+//@   modifies p.Read
+
+//@ spec (*BinaryProtocol).ReadI16
+//@   props C19 C06 C01
+//@   ensures ok: old(p.Read) + 2 <= len(p.Buf) ==> err == nil && p.Read == old(p.Read) + 2 && value == int16(be16(p.Buf, old(p.Read)))
+//@   ensures eof: old(p.Read) + 2 > len(p.Buf) ==> err != nil && p.Read == old(p.Read)
+//@   modifies p.Read
+
+//@ spec (*BinaryProtocol).ReadI32
+//@   props C19 C06 C01
+//@   ensures ok: old(p.Read) + 4 <= len(p.Buf) ==> err == nil && p.Read == old(p.Read) + 4 && value == int32(be32(p.Buf, old(p.Read)))
+//@   ensures eof: old(p.Read) + 4 > len(p.Buf) ==> err != nil && p.Read == old(p.Read)
+//@   modifies p.Read
+
+//@ spec (*BinaryProtocol).ReadI64
+//@   props C19 C06 C01
+//@   ensures ok: old(p.Read) + 8 <= len(p.Buf) ==> err == nil && p.Read == old(p.Read) + 8 && value == int64(be64(p.Buf, old(p.Read)))
+//@   ensures eof: old(p.Read) + 8 > len(p.Buf) ==> err != nil && p.Read == old(p.Read)
+//@   modifies p.Read
+
+//@ spec (*BinaryProtocol).ReadDouble
+//@   props C19 C06 C01
+//@   ensures ok: old(p.Read) + 8 <= len(p.Buf) ==> err == nil && p.Read == old(p.Read) + 8 && bits(value) == be64(p.Buf, old(p.Read))
+//@   ensures eof: old(p.Read) + 8 > len(p.Buf) ==> err != nil && p.Read == old(p.Read)
+//@   modifies p.Read
+
+// ---- strings / binaries ---------------------------------------------------------------------------
+// length-prefixed append: be32(len(v)) followed by the bytes of v
+//@ template bp_appends_lp(v)
+//@   ensures ok: r0 == nil
+//@   ensures len: len(p.Buf) == old(len(p.Buf)) + 4 + len(v)
+//@   ensures prefix: forall i :: 0 <= i && i < old(len(p.Buf)) ==> p.Buf[i] == old(p.Buf[i])
+//@   ensures hdr: forall k :: 0 <= k && k < 4 ==> p.Buf[old(len(p.Buf))+k] == bebyte(uint64(uint32(int32(len(v)))), 4, k)
+//@   ensures payload: forall k :: 0 <= k && k < len(v) ==> p.Buf[old(len(p.Buf))+4+k] == old(v[k])
+//@   ensures read: p.Read == old(p.Read)
+//@   ensures inplace: old(len(p.Buf)) + 4 + len(v) <= old(cap(p.Buf)) ==> same(p.Buf, old(p.Buf)) && cap(p.Buf) == old(cap(p.Buf))
+//@   ensures grown: old(len(p.Buf)) + 4 + len(v) > old(cap(p.Buf)) ==> fresh(p.Buf)
+//@   modifies p.Buf, p.Buf[len(p.Buf):len(p.Buf)+4+len(v)] if len(p.Buf) + 4 + len(v) <= cap(p.Buf)
+//@   split len(p.Buf) + 4 + len(v) <= cap(p.Buf)
+//@ end
+
+//@ spec (*BinaryProtocol).WriteString
+//@   props C19
+//@   requires noalias: !sameregion(value, p.Buf)
+//@   use bp_appends_lp(value)
+
+//@ spec (*BinaryProtocol).WriteBinary
+//@   props C19
+//@   requires noalias: !sameregion(value, p.Buf)
+//@   use bp_appends_lp(value)
+
+// ---- headers --------------------------------------------------------------------------------------
+//@ spec (*BinaryProtocol).WriteFieldBegin
+//@   props C19
+//@   use bp_appends(3, ite(k == 0, byte(typeID), bebyte(uint64(uint16(id)), 2, k-1)))
+
+//@ spec (*BinaryProtocol).WriteFieldStop
+//@   props C19
+//@   use bp_appends(1, byte(0))
+
+//@ spec (*BinaryProtocol).WriteStructEnd
+//@   props C19
+//@   use bp_appends(1, byte(0))
+
+//@ spec (*BinaryProtocol).WriteMapBegin
+//@   props C19
+//@   use bp_appends(6, ite(k == 0, byte(keyType), ite(k == 1, byte(valueType), bebyte(uint64(uint32(int32(size))), 4, k-2))))
+
+//@ spec (*BinaryProtocol).WriteListBegin
+//@   props C19
+//@   use bp_appends(5, ite(k == 0, byte(elemType), bebyte(uint64(uint32(int32(size))), 4, k-1)))
+
+//@ spec (*BinaryProtocol).WriteSetBegin
+//@   props C19
+//@   use bp_appends(5, ite(k == 0, byte(elemType), bebyte(uint64(uint32(int32(size))), 4, k-1)))
+
+// strict-binary message header: version|type, name, seqid
+//@ spec (*BinaryProtocol).WriteMessageBegin
+//@   props C19
+//@   requires noalias: !sameregion(name, p.Buf)
+//@   ensures ok: r0 == nil
+//@   ensures len: len(p.Buf) == old(len(p.Buf)) + 12 + len(name)
+//@   ensures prefix: forall i :: 0 <= i && i < old(len(p.Buf)) ==> p.Buf[i] == old(p.Buf[i])
+//@   ensures version: forall k :: 0 <= k && k < 4 ==> p.Buf[old(len(p.Buf))+k] == bebyte(uint64(uint32(0x80010000) | uint32(typeID)), 4, k)
+//@   ensures namelen: forall k :: 0 <= k && k < 4 ==> p.Buf[old(len(p.Buf))+4+k] == bebyte(uint64(uint32(int32(len(name)))), 4, k)
+//@   ensures name: forall k :: 0 <= k && k < len(name) ==> p.Buf[old(len(p.Buf))+8+k] == old(name[k])
+//@   ensures seq: forall k :: 0 <= k && k < 4 ==> p.Buf[old(len(p.Buf))+8+len(name)+k] == bebyte(uint64(uint32(seqID)), 4, k)
+//@   ensures read: p.Read == old(p.Read)
+//@   ensures inplace: old(len(p.Buf)) + 12 + len(name) <= old(cap(p.Buf)) ==> same(p.Buf, old(p.Buf)) && cap(p.Buf) == old(cap(p.Buf))
+//@   ensures grown: old(len(p.Buf)) + 12 + len(name) > old(cap(p.Buf)) ==> fresh(p.Buf)
+//@   modifies p.Buf, p.Buf[len(p.Buf):len(p.Buf)+12+len(name)] if len(p.Buf) + 12 + len(name) <= cap(p.Buf)
+//@   split len(p.Buf) + 12 + len(name) <= cap(p.Buf)
+
+// ---- readers of strings and headers ----------------------------------------------------------------
+//@ pure strsz(b []byte, o int) int32 = int32(be32(b, o))
+
+//@ spec (*BinaryProtocol).ReadString
+//@   props C19 C06 C01
+//@   ensures mono: old(p.Read) <= p.Read && p.Read <= old(p.Read) + 4 + (len(p.Buf) - old(p.Read))
+//@   ensures eof: old(p.Read) + 4 > len(p.Buf) ==> err != nil && p.Read == old(p.Read)
+//@   ensures bad: old(p.Read) + 4 <= len(p.Buf) && (strsz(p.Buf, old(p.Read)) < 0 || int(strsz(p.Buf, old(p.Read))) > len(p.Buf) - old(p.Read) - 4) ==> err != nil
+//@   ensures ok: old(p.Read) + 4 <= len(p.Buf) && strsz(p.Buf, old(p.Read)) >= 0 && int(strsz(p.Buf, old(p.Read))) <= len(p.Buf) - old(p.Read) - 4 ==> \
+//@       err == nil && len(value) == int(strsz(p.Buf, old(p.Read))) && p.Read == old(p.Read) + 4 + len(value)
+//@   ensures bytes: err == nil ==> forall i :: 0 <= i && i < len(value) ==> value[i] == p.Buf[old(p.Read)+4+i]
+//@   ensures alias: err == nil && !copy ==> sameregion(value, p.Buf) && offset(value) == offset(p.Buf) + old(p.Read) + 4
+//@   ensures copied: err == nil && copy ==> fresh(value)
+//@   modifies p.Read
+
+//@ spec (*BinaryProtocol).ReadBinary
+//@   props C19 C06 C01
+//@   ensures mono: old(p.Read) <= p.Read && p.Read <= old(p.Read) + 4 + (len(p.Buf) - old(p.Read))
+//@   ensures eof: old(p.Read) + 4 > len(p.Buf) ==> err != nil && p.Read == old(p.Read)
+//@   ensures bad: old(p.Read) + 4 <= len(p.Buf) && (strsz(p.Buf, old(p.Read)) < 0 || int(strsz(p.Buf, old(p.Read))) > len(p.Buf) - old(p.Read) - 4) ==> err != nil
+//@   ensures ok: old(p.Read) + 4 <= len(p.Buf) && strsz(p.Buf, old(p.Read)) >= 0 && int(strsz(p.Buf, old(p.Read))) <= len(p.Buf) - old(p.Read) - 4 ==> \
+//@       err == nil && len(value) == int(strsz(p.Buf, old(p.Read))) && p.Read == old(p.Read) + 4 + len(value)
+//@   ensures bytes: err == nil ==> forall i :: 0 <= i && i < len(value) ==> value[i] == p.Buf[old(p.Read)+4+i]
+//@   ensures alias: err == nil && !copyBytes ==> sameregion(value, p.Buf) && offset(value) == offset(p.Buf) + old(p.Read) + 4
+//@   ensures copied: err == nil && copyBytes ==> fresh(value)
+//@   modifies p.Read
+
+// valid wire types (transcribed from the protocol specification's type table)
+//@ pure tvalid(t Type) bool = t == 0 || t == 1 || t == 2 || t == 3 || t == 4 || t == 6 || t == 8 || t == 10 || t == 11 || t == 12 || t == 13 || t == 14 || t == 15 || t == 16 || t == 17
+
+//@ spec (*BinaryProtocol).ReadFieldBegin
+//@   props C19 C06 C01
+//@   ensures eof: old(p.Read) + 1 > len(p.Buf) ==> err != nil && p.Read == old(p.Read)
+//@   ensures stop: old(p.Read) + 1 <= len(p.Buf) && p.Buf[old(p.Read)] == 0 ==> err == nil && typeID == 0 && p.Read == old(p.Read) + 1
+//@   ensures invalid: old(p.Read) + 1 <= len(p.Buf) && !tvalid(Type(p.Buf[old(p.Read)])) ==> err != nil
+//@   ensures ok: old(p.Read) + 3 <= len(p.Buf) && p.Buf[old(p.Read)] != 0 && tvalid(Type(p.Buf[old(p.Read)])) ==> err == nil && \
+//@       typeID == Type(p.Buf[old(p.Read)]) && id == FieldID(be16(p.Buf, old(p.Read)+1)) && p.Read == old(p.Read) + 3
+//@   ensures short: old(p.Read) + 1 <= len(p.Buf) && old(p.Read) + 3 > len(p.Buf) && p.Buf[old(p.Read)] != 0 && tvalid(Type(p.Buf[old(p.Read)])) ==> err != nil
+//@   ensures mono: old(p.Read) <= p.Read
+//@   modifies p.Read
+
+//@ spec (*BinaryProtocol).ReadMapBegin
+//@   props C19 C06 C01
+//@   ensures ok: old(p.Read) + 6 <= len(p.Buf) && tvalid(Type(p.Buf[old(p.Read)])) && tvalid(Type(p.Buf[old(p.Read)+1])) && int32(be32(p.Buf, old(p.Read)+2)) >= 0 ==> \
+//@       err == nil && kType == Type(p.Buf[old(p.Read)]) && vType == Type(p.Buf[old(p.Read)+1]) && size == int(int32(be32(p.Buf, old(p.Read)+2))) && p.Read == old(p.Read) + 6
+//@   ensures short: old(p.Read) + 6 > len(p.Buf) ==> err != nil
+//@   ensures invalid: old(p.Read) + 6 <= len(p.Buf) && (!tvalid(Type(p.Buf[old(p.Read)])) || !tvalid(Type(p.Buf[old(p.Read)+1])) || int32(be32(p.Buf, old(p.Read)+2)) < 0) ==> err != nil
+//@   ensures size: err == nil ==> 0 <= size && size <= 2147483647
+//@   ensures mono: old(p.Read) <= p.Read
+//@   modifies p.Read
+
+//@ spec (*BinaryProtocol).ReadListBegin
+//@   props C19 C06 C01
+//@   ensures ok: old(p.Read) + 5 <= len(p.Buf) && tvalid(Type(p.Buf[old(p.Read)])) && int32(be32(p.Buf, old(p.Read)+1)) >= 0 ==> \
+//@       err == nil && elemType == Type(p.Buf[old(p.Read)]) && size == int(int32(be32(p.Buf, old(p.Read)+1))) && p.Read == old(p.Read) + 5
+//@   ensures short: old(p.Read) + 5 > len(p.Buf) ==> err != nil
+//@   ensures invalid: old(p.Read) + 5 <= len(p.Buf) && (!tvalid(Type(p.Buf[old(p.Read)])) || int32(be32(p.Buf, old(p.Read)+1)) < 0) ==> err != nil
+//@   ensures size: err == nil ==> 0 <= size && size <= 2147483647
+//@   ensures mono: old(p.Read) <= p.Read
+//@   modifies p.Read
+
+//@ spec (*BinaryProtocol).ReadSetBegin
+//@   props C19 C06 C01
+//@   ensures ok: old(p.Read) + 5 <= len(p.Buf) && tvalid(Type(p.Buf[old(p.Read)])) && int32(be32(p.Buf, old(p.Read)+1)) >= 0 ==> \
+//@       err == nil && elemType == Type(p.Buf[old(p.Read)]) && size == int(int32(be32(p.Buf, old(p.Read)+1))) && p.Read == old(p.Read) + 5
+//@   ensures short: old(p.Read) + 5 > len(p.Buf) ==> err != nil
+//@   ensures invalid: old(p.Read) + 5 <= len(p.Buf) && (!tvalid(Type(p.Buf[old(p.Read)])) || int32(be32(p.Buf, old(p.Read)+1)) < 0) ==> err != nil
+//@   ensures size: err == nil ==> 0 <= size && size <= 2147483647
+//@   ensures mono: old(p.Read) <= p.Read
+//@   modifies p.Read
+
+// ---- skipping ---------------------------------------------------------------------------------------
+//@ spec (*BinaryProtocol).next_nopanic
+//@   props C19 C06 C01
+//@   requires n: 1 <= n && n <= 16
+//@   ensures ok: old(p.Read) + n <= len(p.Buf) ==> r1 == nil && p.Read == old(p.Read) + n && len(r0) == n && \
+//@       sameregion(r0, p.Buf) && offset(r0) == offset(p.Buf) + old(p.Read)
+//@   ensures eof: old(p.Read) + n > len(p.Buf) ==> r1 != nil && p.Read == old(p.Read)
+//@   modifies p.Read
+
+//@ spec (*BinaryProtocol).skipn
+//@   props C19 C06 C01
+//@   requires n: 0 <= n && n < 1<<40
+//@   ensures ok: old(p.Read) + n <= len(p.Buf) ==> r0 == nil && p.Read == old(p.Read) + n
+//@   ensures eof: old(p.Read) + n > len(p.Buf) ==> r0 != nil && p.Read == old(p.Read)
+//@   modifies p.Read
+
+// the string length is read as an unsigned 32-bit number by the skipper
+//@ spec (*BinaryProtocol).skipstr
+//@   props C19 C06 C01
+//@   ensures ok: old(p.Read) + 4 <= len(p.Buf) && old(p.Read) + 4 + zx(be32(p.Buf, old(p.Read))) <= len(p.Buf) ==> \
+//@       r0 == nil && p.Read == old(p.Read) + 4 + zx(be32(p.Buf, old(p.Read)))
+//@   ensures bad: old(p.Read) + 4 > len(p.Buf) || old(p.Read) + 4 + zx(be32(p.Buf, old(p.Read))) > len(p.Buf) ==> r0 != nil && p.Read == old(p.Read)
+//@   modifies p.Read
+
+//@ spec (*BinaryProtocol).SkipGo
+//@   props C19 C06 C01
+//@   ensures mono: old(p.Read) <= p.Read
+//@   modifies p.Read
+//@   decreases maxDepth
+//@   loop 1
+//@     invariant mono: old(p.Read) <= p.Read
+//@     decreases len(p.Buf) - p.Read
+//@   loop 2
+//@     invariant mono: old(p.Read) <= p.Read
+//@   loop 3
+//@     invariant mono: old(p.Read) <= p.Read
+
+//@ spec (*BinaryProtocol).Skip
+//@   props C19 C06 C01
+//@   ensures mono: old(p.Read) <= p.Read
+//@   modifies p.Read
+
+// ---- message envelope ----------------------------------------------------------------------------------
+// strict header at offset o: negative version word 0x8001____, then name, then seqid
+//@ pure msg_ok(b []byte, o int) bool = o + 12 <= len(b) && int32(be32(b, o)) <= 0 && (int64(int32(be32(b, o))) & 0xffff0000) == 0x80010000 && \
+//@      strsz(b, o+4) >= 0 && int(strsz(b, o+4)) <= len(b) - o - 12
+
+//@ spec (*BinaryProtocol).ReadMessageBegin
+//@   props C19 C06
+//@   ensures ok: msg_ok(p.Buf, old(p.Read)) ==> err == nil && typeID == TMessageType(int32(be32(p.Buf, old(p.Read))) & 0xff) && \
+//@       len(name) == int(strsz(p.Buf, old(p.Read)+4)) && seqID == int32(be32(p.Buf, old(p.Read)+8+len(name))) && p.Read == old(p.Read) + 12 + len(name)
+//@   ensures bad: !msg_ok(p.Buf, old(p.Read)) ==> err != nil
+//@   ensures bytes: err == nil ==> forall i :: 0 <= i && i < len(name) ==> name[i] == p.Buf[old(p.Read)+8+i]
+//@   ensures mono: old(p.Read) <= p.Read
+//@   modifies p.Read
+
+//@ spec (BinaryProtocol).UnwrapBody
+//@   props C19 C06
+//@   ensures bad: !msg_ok(p.Buf, p.Read) ==> r5 != nil
+//@   ensures hdr: r5 == nil ==> r1 == TMessageType(int32(be32(p.Buf, p.Read)) & 0xff) && len(r0) == int(strsz(p.Buf, p.Read+4)) && \
+//@       r2 == int32(be32(p.Buf, p.Read+8+len(r0)))
+//@   ensures name: r5 == nil ==> forall i :: 0 <= i && i < len(r0) ==> r0[i] == p.Buf[p.Read+8+i]
+//@   ensures body: r5 == nil && p.Buf[p.Read+12+len(r0)] != 0 ==> r3 == FieldID(be16(p.Buf, p.Read+13+len(r0))) && sameregion(r4, p.Buf) && \
+//@       offset(r4) == offset(p.Buf) + p.Read + 15 + len(r0) && len(r4) == len(p.Buf) - 1 - (p.Read + 15 + len(r0))
+//@   ensures empty: r5 == nil && p.Buf[p.Read+12+len(r0)] == 0 ==> len(r4) == 0
+
+//@ spec UnwrapBinaryMessage
+//@   props C19 C06
+//@   ensures bad: !msg_ok(buf, 0) ==> err != nil
+//@   ensures hdr: err == nil ==> callType == TMessageType(int32(be32(buf, 0)) & 0xff) && len(name) == int(strsz(buf, 4)) && seqID == int32(be32(buf, 8+len(name)))
+//@   ensures name: err == nil ==> forall i :: 0 <= i && i < len(name) ==> name[i] == buf[8+i]
+//@   ensures body: err == nil && buf[12+len(name)] != 0 ==> structID == FieldID(be16(buf, 13+len(name))) && sameregion(body, buf) && \
+//@       offset(body) == offset(buf) + 15 + len(name) && len(body) == len(buf) - 16 - len(name)
+
+//@ spec WrapBinaryBody
+//@   props C19
+//@   requires small: len(methodName) < 1<<30 && len(body) < 1<<30
+//@   ensures ok: r1 == nil && fresh(r0)
+//@   ensures len: len(r0) == 16 + len(methodName) + len(body)
+//@   ensures version: forall k :: 0 <= k && k < 4 ==> r0[k] == bebyte(uint64(uint32(0x80010000) | uint32(msgTyp)), 4, k)
+//@   ensures namelen: forall k :: 0 <= k && k < 4 ==> r0[4+k] == bebyte(uint64(uint32(int32(len(methodName)))), 4, k)
+//@   ensures name: forall k :: 0 <= k && k < len(methodName) ==> r0[8+k] == methodName[k]
+//@   ensures seq: forall k :: 0 <= k && k < 4 ==> r0[8+len(methodName)+k] == bebyte(uint64(uint32(seqID)), 4, k)
+//@   ensures fieldtype: r0[12+len(methodName)] == 12
+//@   ensures fieldid: forall k :: 0 <= k && k < 2 ==> r0[13+len(methodName)+k] == bebyte(uint64(uint16(structID)), 2, k)
+//@   ensures body: forall k :: 0 <= k && k < len(body) ==> r0[15+len(methodName)+k] == body[k]
+//@   ensures stop: r0[15+len(methodName)+len(body)] == 0
+
+//@ spec GetBinaryMessageHeaderAndFooter
+//@   props C19
+//@   requires small: len(methodName) < 1<<30
+//@   ensures ok: err == nil && len(header) == 15 + len(methodName) && len(footer) == 1 && footer[0] == 0
+//@   ensures version: forall k :: 0 <= k && k < 4 ==> header[k] == bebyte(uint64(uint32(0x80010000) | uint32(msgTyp)), 4, k)
+//@   ensures namelen: forall k :: 0 <= k && k < 4 ==> header[4+k] == bebyte(uint64(uint32(int32(len(methodName)))), 4, k)
+//@   ensures name: forall k :: 0 <= k && k < len(methodName) ==> header[8+k] == methodName[k]
+//@   ensures seq: forall k :: 0 <= k && k < 4 ==> header[8+len(methodName)+k] == bebyte(uint64(uint32(seqID)), 4, k)
+//@   ensures fieldtype: header[12+len(methodName)] == 12
+//@   ensures fieldid: forall k :: 0 <= k && k < 2 ==> header[13+len(methodName)+k] == bebyte(uint64(uint16(structID)), 2, k)
+
+// ---- in-place encoders / decoders over caller-provided windows -------------------------------------------
+//@ spec (BinaryEncoding).EncodeBool
+//@   props C19
+//@   requires len(b) >= 1
+//@   ensures b[0] == ite(v, byte(1), byte(0))
+//@   modifies b[0:1]
+
+//@ spec (BinaryEncoding).EncodeByte
+//@   props C19
+//@   requires len(b) >= 1
+//@   ensures b[0] == v
+//@   modifies b[0:1]
+
+//@ spec (BinaryEncoding).EncodeInt16
+//@   props C19
+//@   requires len(b) >= 2
+//@   ensures be16(b, 0) == uint16(v)
+//@   modifies b[0:2]
+
+//@ spec (BinaryEncoding).EncodeInt32
+//@   props C19
+//@   requires len(b) >= 4
+//@   ensures be32(b, 0) == uint32(v)
+//@   modifies b[0:4]
+
+//@ spec (BinaryEncoding).EncodeInt64
+//@   props C19
+//@   requires len(b) >= 8
+//@   ensures be64(b, 0) == uint64(v)
+//@   modifies b[0:8]
+
+//@ spec (BinaryEncoding).EncodeDouble
+//@   props C19
+//@   requires len(b) >= 8
+//@   ensures be64(b, 0) == bits(v)
+//@   modifies b[0:8]
+
+//@ spec (BinaryEncoding).EncodeFieldBegin
+//@   props C19
+//@   requires len(b) >= 3
+//@   ensures b[0] == byte(t) && be16(b, 1) == uint16(id)
+//@   modifies b[0:3]
+
+//@ spec (BinaryEncoding).DecodeBool
+//@   props C19 C01
+//@   requires len(b) >= 1
+//@   ensures r0 == (b[0] == 1)
+
+//@ spec (BinaryEncoding).DecodeByte
+//@   props C19 C01
+//@   requires len(b) >= 1
+//@   ensures r0 == b[0]
+
+//@ spec (BinaryEncoding).DecodeInt16
+//@   props C19 C01
+//@   requires len(b) >= 2
+//@   ensures r0 == int16(be16(b, 0))
+
+//@ spec (BinaryEncoding).DecodeInt32
+//@   props C19 C01
+//@   requires len(b) >= 4
+//@   ensures r0 == int32(be32(b, 0))
+
+//@ spec (BinaryEncoding).DecodeInt64
+//@   props C19 C01
+//@   requires len(b) >= 8
+//@   ensures r0 == int64(be64(b, 0))
+
+//@ spec (BinaryEncoding).DecodeDouble
+//@   props C19 C01
+//@   requires len(b) >= 8
+//@   ensures bits(r0) == be64(b, 0)
+
+// the decoders of length-prefixed values trust the prefix: callers must have validated the window
+//@ spec (BinaryEncoding).DecodeString
+//@   props C19 C01
+//@   requires len(b) >= 4 && strsz(b, 0) >= 0 && 4 + int(strsz(b, 0)) <= len(b)
+//@   ensures len(value) == int(strsz(b, 0)) && sameregion(value, b) && offset(value) == offset(b) + 4
+
+//@ spec (BinaryEncoding).DecodeBytes
+//@   props C19 C01
+//@   requires len(b) >= 4 && strsz(b, 0) >= 0 && 4 + int(strsz(b, 0)) <= len(b)
+//@   ensures len(value) == int(strsz(b, 0)) && sameregion(value, b) && offset(value) == offset(b) + 4
+
+//@ spec (*BinaryProtocol).ModifyI32
+//@   props C19 C05
+//@   requires pos: 0 <= pos && pos < 1<<40
+//@   ensures short: len(p.Buf) < pos + 4 ==> r0 != nil
+//@   ensures ok: len(p.Buf) >= pos + 4 ==> r0 == nil && be32(p.Buf, pos) == uint32(value) && len(p.Buf) == old(len(p.Buf)) && same(p.Buf, old(p.Buf))
+//@   ensures others: forall i :: 0 <= i && i < len(p.Buf) && (i < pos || i >= pos + 4) ==> p.Buf[i] == old(p.Buf[i])
+//@   ensures read: p.Read == old(p.Read)
+//@   modifies p.Buf, p.Buf[pos:pos+4] if len(p.Buf) >= pos + 4
+
+// ---- requires bitmap (C16) ------------------------------------------------------------------------------
+// view: bit(b, id) — ids beyond the allocated words read as 0
+//@ pure bit(b RequiresBitmap, id FieldID) bool = int(id)/64 < len(b) && (b[int(id)/64] >> (uint64(id) % 64)) & 1 == 1
+//@ pure bmask(id FieldID) uint64 = uint64(1) << (uint64(id) % 64)
+// word w of the bitmap as it was (0 when not allocated yet)
+//@ pure bword(b RequiresBitmap, w int) uint64 = ite(w < len(b), b[w], uint64(0))
+
+//@ spec (*RequiresBitmap).malloc
+//@   props C16
+//@   requires b != nil && id >= 0
+//@   ensures len: len(*b) > int(id)/64 && len(*b) >= old(len(*b))
+//@   ensures kept: forall w :: 0 <= w && w < old(len(*b)) ==> (*b)[w] == old((*b)[w])
+//@   ensures zero: forall w :: old(len(*b)) <= w && w < len(*b) ==> (*b)[w] == 0
+//@   ensures same: int(id)/64 < old(len(*b)) ==> same(*b, old(*b)) && len(*b) == old(len(*b)) && cap(*b) == old(cap(*b))
+//@   ensures grown: int(id)/64 >= old(len(*b)) ==> fresh(*b)
+//@   modifies *b
+//@   split int(id)/64 < len(*b)
+
+//@ spec (*RequiresBitmap).Set
+//@   props C16 C03 C11
+//@   requires b != nil && !samerg(b, *b) && (val == OptionalRequireness || val == DefaultRequireness || val == RequiredRequireness)
+//@   ensures bit: bit(*b, id) == (val != OptionalRequireness)
+//@   ensures others: forall j :: 0 <= j && j < 65536 && j != int(id) ==> bit(*b, FieldID(j)) == old(bit(*b, FieldID(j)))
+//@   ensures len: len(*b) > int(id)/64 && len(*b) >= old(len(*b))
+//@   ensures word: (*b)[int(id)/64] == ite(val == OptionalRequireness, old(bword(*b, int(id)/64)) &^ bmask(id), old(bword(*b, int(id)/64)) | bmask(id))
+//@   ensures kept: forall w :: 0 <= w && w < old(len(*b)) && w != int(id)/64 ==> (*b)[w] == old((*b)[w])
+//@   ensures zero: forall w :: old(len(*b)) <= w && w < len(*b) && w != int(id)/64 ==> (*b)[w] == 0
+//@   ensures same: int(id)/64 < old(len(*b)) ==> same(*b, old(*b)) && len(*b) == old(len(*b))
+//@   ensures grown: int(id)/64 >= old(len(*b)) ==> fresh(*b)
+//@   modifies *b, (*b)[int(id)/64:int(id)/64+1] if int(id)/64 < len(*b)
+//@   split int(id)/64 < len(*b)
+
+//@ spec (RequiresBitmap).IsSet
+//@   props C16
+//@   requires inrange: int(id)/64 < len(b)
+//@   ensures r0 == bit(b, id)
+
+// CopyTo: `to` receives the same view; its storage is either its own old storage or a new allocation —
+// never the source's (no option may ever write through to the descriptor's bitmap).
+//@ spec (RequiresBitmap).CopyTo
+//@   props C16 C12
+//@   requires to != nil && !sameregion(*to, b) && !samerg(to, b) && !samerg(to, *to)
+//@   ensures len: len(*to) == len(b)
+//@   ensures words: forall w :: 0 <= w && w < len(b) ==> (*to)[w] == b[w]
+//@   ensures reuse: len(b) <= old(cap(*to)) ==> same(*to, old(*to))
+//@   ensures fresh: len(b) > old(cap(*to)) ==> fresh(*to)
+//@   ensures src: forall w :: 0 <= w && w < len(b) ==> b[w] == old(b[w])
+//@   modifies *to, (*to)[0:len(b)] if len(b) <= cap(*to)
+//@   split len(b) <= cap(*to)
+
+// CheckRequires / HandleRequires: walk every marked bit and apply the documented decision table.
+// ASSUMED about `handler`: it leaves the descriptor's id table and the bitmap's words unchanged.
+// The table is proved per iteration: the handler is called only when the field is owed (callee requires),
+// and an iteration over a marked bit that does not return makes exactly one call iff the field is owed (step).
+//@ pure howed(f *FieldDescriptor, wr bool, wd bool, wo bool) bool = f.required == RequiredRequireness && wr || \
+//@      f.required == DefaultRequireness && wd || f.required == OptionalRequireness && (wo || f.defaultValue != nil)
+
+//@ spec (RequiresBitmap).CheckRequires
+//@   props C16 C06
+//@   requires desc != nil && handler != nil && len(b) <= 1024    // FieldID is 16 bits wide: at most 1024 words
+//@   callee handler preserves desc, desc.ids.m, b, targets(desc.ids.m)
+//@   callee handler requires owed: a0 != nil && a0.required != RequiredRequireness && writeDefault
+//@   loop 1
+//@     invariant ptr: samerg(s, b) && offset(s) == offset(b) + 8*i && n == len(b)
+//@     step exhausted: v == 0 || j >= 64
+//@   loop 2
+//@     invariant word: 0 <= i && i < len(b) && v == b[i] >> uint64(j)
+//@     invariant j: 0 <= j && j <= 64
+//@     step table: v % 2 == 1 ==> calls() - headcalls() == ite(writeDefault, 1, 0)
+//@     step skip: v % 2 == 0 ==> calls() == headcalls()
+//@     decreases 64 - j
+
+//@ spec (RequiresBitmap).HandleRequires
+//@   props C16 C06
+//@   requires desc != nil && handler != nil && len(b) <= 1024
+//@   requires separate: !samerg(b, desc) && !samerg(b, desc.ids.m) && !samerg(desc, desc.ids.m)
+//@   requires declared: forall k :: 0 <= k && k < 65536 && bit(b, FieldID(k)) ==> k < len(desc.ids.m) && desc.ids.m[k] != nil && fieldat(desc.ids.m[k]).required <= 2
+//@   callee handler preserves desc, desc.ids.m, b, targets(desc.ids.m)
+//@   callee handler requires nonnil: a0 != nil
+//@   callee handler requires req: a0.required == RequiredRequireness ==> writeRequired
+//@   callee handler requires def: a0.required == DefaultRequireness ==> writeDefault
+//@   callee handler requires opt: a0.required == OptionalRequireness ==> writeOptional || a0.defaultValue != nil
+//@   callee handler requires range: a0.required <= 2
+//@   loop 1
+//@     invariant ptr: samerg(s, b) && offset(s) == offset(b) + 8*i && n == len(b)
+//@     step exhausted: v == 0 || j >= 64
+//@   loop 2
+//@     invariant word: 0 <= i && i < len(b) && v == b[i] >> uint64(j)
+//@     invariant j: 0 <= j && j <= 64
+//@     step complete: v % 2 == 1 && calls() == headcalls() ==> !old(howed(fieldat(desc.ids.m[i*64+j]), writeRequired, writeDefault, writeOptional))
+//@     step once: calls() - headcalls() <= 1
+//@     step skip: v % 2 == 0 ==> calls() == headcalls()
+//@     decreases 64 - j
+
+// convertRequireness: how the IDL's requiredness and the parse options determine the descriptor's
+// requiredness and its bit in the struct's requires-bitmap (documented table).
+//@ spec convertRequireness
+//@   props C16 C14
+//@   requires st != nil && f != nil && !samerg(st, f) && !samerg(f, st.requires) && !samerg(st, st.requires)
+//@   requires kind: r == parser.FieldType_Default || r == parser.FieldType_Optional || r == parser.FieldType_Required
+//@   ensures req: f.required == ite(r == parser.FieldType_Default, DefaultRequireness, ite(r == parser.FieldType_Optional, OptionalRequireness, RequiredRequireness))
+//@   ensures bit: bit(st.requires, f.id) == (!(old(f.isRequestBase) || old(f.isResponseBase)) && \
+//@       (r == parser.FieldType_Required || r == parser.FieldType_Default || opts.SetOptionalBitmap))
+//@   ensures others: forall j :: 0 <= j && j < 65536 && j != int(f.id) ==> bit(st.requires, FieldID(j)) == old(bit(st.requires, FieldID(j)))
+//@   modifies f.required, st.requires, heap
